@@ -8,9 +8,11 @@ Check @print_parse_roundtrip.
 Check @struct_parse_complete.
 Check @interpretation_stable.
 Check @attribute_readings.
+Check @parsed_field_flags.
 Print Assumptions parse_complete.
 Print Assumptions option_is_recognised.
 Print Assumptions print_parse_roundtrip.
 Print Assumptions struct_parse_complete.
 Print Assumptions interpretation_stable.
 Print Assumptions attribute_readings.
+Print Assumptions parsed_field_flags.
